@@ -85,7 +85,8 @@ Record node := {
   n_running : list N;
   n_depth : N;
   n_setup : bool;
-  n_teardown : bool
+  n_teardown : bool;
+  n_started : bool                  (* some job of the batch was launched on this node *)
 }.
 
 Record state := {
@@ -435,6 +436,7 @@ Definition step (sc : scenario) (s : state) (e : event) : option state :=
     match in_round s p with
     | Some r =>
       if (match r_check r with Some true => true | _ => false end) && negb (r_owns r) && negb (complete s)
+         && negb (r_summary r)
          && all_mem_rows results (processed s) && all_mem_rows (processed s) results
          && eqsetN missing (diffN (all_jobs sc) (row_names (processed s))) then
         Some (set_session s {| r_pid := r_pid r; r_alive := true; r_st := r_st r; r_bl := r_bl r; r_index := r_index r;
@@ -478,13 +480,12 @@ Definition step (sc : scenario) (s : state) (e : event) : option state :=
       match find_n id (nodes s) with
       | Some n =>
         if hk_node_setup (sc_hooks sc) && n_alive n && negb (n_setup n)
-           && (match n_running n with [] => true | _ => false end)
-           && negb (existsb (fun j => memN j (launched s)) (map fst (n_queue n))) then
+           && negb (n_started n) then
           Some {| created := created s; st := st s; bl := bl s; ids := ids s; next_index := next_index s;
                   holder := holder s; marker := marker s; complete := complete s; canceled := canceled s;
                   rows := rows s; pending := pending s; processed := processed s; hpc := hpc s;
                   nodes := set_n {| n_id := id; n_alive := true; n_queue := n_queue n; n_running := n_running n;
-                                    n_depth := n_depth n; n_setup := true; n_teardown := n_teardown n |} (nodes s);
+                                    n_depth := n_depth n; n_setup := true; n_teardown := n_teardown n; n_started := n_started n |} (nodes s);
                   handed := handed s; indices := indices s; launched := launched s;
                   completions := completions s; setups := setups s |}
         else None
@@ -500,7 +501,7 @@ Definition step (sc : scenario) (s : state) (e : event) : option state :=
                   holder := holder s; marker := marker s; complete := complete s; canceled := canceled s;
                   rows := rows s; pending := pending s; processed := processed s; hpc := hpc s;
                   nodes := set_n {| n_id := id; n_alive := true; n_queue := n_queue n; n_running := n_running n;
-                                    n_depth := n_depth n; n_setup := n_setup n; n_teardown := true |} (nodes s);
+                                    n_depth := n_depth n; n_setup := n_setup n; n_teardown := true; n_started := n_started n |} (nodes s);
                   handed := handed s; indices := indices s; launched := launched s;
                   completions := completions s; setups := setups s |}
         else None
@@ -514,7 +515,12 @@ Definition step (sc : scenario) (s : state) (e : event) : option state :=
       if r_summary r && negb (complete s) && negb (marker s)
          && (if hk_teardown (sc_hooks sc) then r_teardown r else true) then
         Some {| created := created s; st := st s; bl := bl s; ids := ids s; next_index := next_index s;
-                holder := holder s; marker := marker s; complete := true; canceled := canceled s;
+                holder := Some {| r_pid := r_pid r; r_alive := true; r_st := r_st r; r_bl := r_bl r;
+                     r_index := r_index r; r_out := r_out r; r_round := true; r_canceled := r_canceled r;
+                     r_owns := r_owns r; r_placed := r_placed r; r_seen := r_seen r; r_updated := r_updated r;
+                     r_check := r_check r; r_summary := false; r_teardown := false;
+                     r_setup := r_setup r; r_creator := r_creator r |};
+                marker := marker s; complete := true; canceled := canceled s;
                 rows := rows s; pending := pending s; processed := processed s; hpc := hpc s; nodes := nodes s;
                 handed := handed s; indices := indices s; launched := launched s;
                 completions := completions s + 1; setups := setups s |}
@@ -550,7 +556,7 @@ Definition step (sc : scenario) (s : state) (e : event) : option state :=
                        | None => hpc s end;
                 nodes := map (fun n => if N.eqb (n_id n) id
                                        then {| n_id := id; n_alive := false; n_queue := n_queue n; n_running := n_running n;
-                                               n_depth := n_depth n; n_setup := n_setup n; n_teardown := n_teardown n |}
+                                               n_depth := n_depth n; n_setup := n_setup n; n_teardown := n_teardown n; n_started := n_started n |}
                                        else n) (nodes s);
                 handed := handed s; indices := indices s; launched := launched s;
                 completions := completions s; setups := setups s |}
@@ -569,7 +575,7 @@ Definition step (sc : scenario) (s : state) (e : event) : option state :=
                 rows := rows s; pending := pending s; processed := processed s;
                 hpc := set_h id HRunning (hpc s);
                 nodes := nodes s ++ [{| n_id := id; n_alive := true; n_queue := h_jobs h; n_running := [];
-                                        n_depth := N.min nj workers; n_setup := false; n_teardown := false |}];
+                                        n_depth := N.min nj workers; n_setup := false; n_teardown := false; n_started := false |}];
                 handed := handed s; indices := indices s; launched := launched s;
                 completions := completions s; setups := setups s |}
       | _, _ => None
@@ -589,7 +595,7 @@ Definition step (sc : scenario) (s : state) (e : event) : option state :=
                   nodes := set_n {| n_id := id; n_alive := true;
                                     n_queue := filter (fun jb => negb (N.eqb (fst jb) j)) (n_queue n);
                                     n_running := n_running n ++ [j]; n_depth := n_depth n; n_setup := n_setup n;
-                                    n_teardown := n_teardown n |} (nodes s);
+                                    n_teardown := n_teardown n; n_started := true |} (nodes s);
                   handed := handed s; indices := indices s; launched := launched s ++ [j];
                   completions := completions s; setups := setups s |}
         else None
@@ -613,7 +619,7 @@ Definition step (sc : scenario) (s : state) (e : event) : option state :=
                       nodes := set_n {| n_id := id; n_alive := true;
                                         n_queue := filter (fun jb => negb (N.eqb (fst jb) j)) (n_queue n);
                                         n_running := n_running n; n_depth := n_depth n; n_setup := n_setup n;
-                                        n_teardown := n_teardown n |} (nodes s);
+                                        n_teardown := n_teardown n; n_started := n_started n |} (nodes s);
                       handed := handed s; indices := indices s; launched := launched s;
                       completions := completions s; setups := setups s |}
             else None
@@ -626,7 +632,7 @@ Definition step (sc : scenario) (s : state) (e : event) : option state :=
                     rows := rows s ++ [rw]; pending := pending s ++ [rw]; processed := processed s; hpc := hpc s;
                     nodes := set_n {| n_id := id; n_alive := true; n_queue := n_queue n;
                                       n_running := filter (fun x => negb (N.eqb x j)) (n_running n);
-                                      n_depth := n_depth n; n_setup := n_setup n; n_teardown := n_teardown n |} (nodes s);
+                                      n_depth := n_depth n; n_setup := n_setup n; n_teardown := n_teardown n; n_started := n_started n |} (nodes s);
                     handed := handed s; indices := indices s; launched := launched s;
                     completions := completions s; setups := setups s |}
           else None
@@ -647,7 +653,7 @@ Definition step (sc : scenario) (s : state) (e : event) : option state :=
                                                               then (j, filter (fun x => negb (N.eqb x d)) (snd jb))
                                                               else jb) (n_queue n);
                                     n_running := n_running n; n_depth := n_depth n; n_setup := n_setup n;
-                                    n_teardown := n_teardown n |} (nodes s);
+                                    n_teardown := n_teardown n; n_started := n_started n |} (nodes s);
                   handed := handed s; indices := indices s; launched := launched s;
                   completions := completions s; setups := setups s |}
         else None
@@ -664,7 +670,7 @@ Definition step (sc : scenario) (s : state) (e : event) : option state :=
               hpc := match h_state h with HCancelled => hpc s | _ => set_h id HGone (hpc s) end;
               nodes := map (fun n => if N.eqb (n_id n) id
                                      then {| n_id := id; n_alive := false; n_queue := n_queue n; n_running := n_running n;
-                                             n_depth := n_depth n; n_setup := n_setup n; n_teardown := n_teardown n |}
+                                             n_depth := n_depth n; n_setup := n_setup n; n_teardown := n_teardown n; n_started := n_started n |}
                                      else n) (nodes s);
               handed := handed s; indices := indices s; launched := launched s;
               completions := completions s; setups := setups s |}
